@@ -1026,7 +1026,7 @@ pub fn run(args: Args) {
     run.assume("protected classes are restated from access/protected.rs: system, domain_info, system_info, system_config, dyngroup, sync_object, tombstone, recycled");
     let seed = args.seed;
     let tier = args.tier;
-    let configs_per_worker = tier.pick(4usize, 100usize);
+    let configs_per_worker = tier.pick(4usize, 60usize);
     let ops_per_config = tier.pick(70u64, 120u64);
     // --replay <file>: re-run exactly the configuration of the witness (its config_seed)
     let replay_seed: Option<u64> = args
